@@ -92,6 +92,9 @@ def concretise(rng, y):
 
 
 def gen_trace(recipe):
+  if recipe.get('suite'):
+    import suite
+    return suite.regen(recipe, ('CallConsPairs', 'CallConsChunks'))
   rng = np.random.default_rng(recipe['seed'])
   events = []
   for y in recipe['ys']:
@@ -173,6 +176,26 @@ def run(ctx):
       ctx.note_case((e['ev'], str(e.get('y')), e.get('n'), e.get('size'), e.get('kg'), e.get('ki'), e.get('seed'),
                      e.get('same_length')), nontrivial=True)
   ctx.extra['calls_replayed'] = nev
+  # constraint generation as the repository's own tests (and every *_Supervised fit they run) call it
+  import suite
+  evs, summary = core.record_suite_calls(os.path.join(ctx.work, 'suite'),
+                                         files=['test/test_constraints.py', 'test/test_fit_transform.py', 'test/test_base_metric.py',
+                                                'test/test_components_metric_conversion.py'] if ctx.quick else ['test/'])
+  spairs = suite.traces_from(evs, ('CallConsPairs', 'CallConsChunks'), 150 if ctx.quick else 0, np.random.default_rng(ctx.seed), spec=SPEC)
+  if len(spairs) < 10:
+    raise core.MachineryError('only %d constraint-generation traces recorded from the repository tests (%s)' % (len(spairs), summary))
+  core.judge(ctx, *SPEC, spairs, lambda r, t, c, p: {'generator': t['events'][p - 1]['ev'] if 0 < p <= len(t['events']) else '', 'suite': True}, tag='suite')
+  for r, t in spairs:
+    ctx.note_case(('suite', r['test']))
+  ctx.extra['suite_traces'] = {'pytest_summary': summary, 'tests_validated': len(spairs),
+                               'calls_validated': sum(len(t['events']) for _, t in spairs)}
+
+  def cross_label(t):
+    e = next(e for e in t['events'] if e['ev'] == 'CallConsPairs' and e['A'] and e['C'])
+    e['B'][0] = e['D'][0] if e['y'][e['D'][0] - 1] != e['y'][e['A'][0] - 1] else e['C'][0]
+  sg = next((t for r, t in spairs if any(e['ev'] == 'CallConsPairs' and e['A'] and e['C'] for e in t['events'])), None)
+  if sg is not None:
+    core.selftest_binding(ctx, *SPEC, sg, cross_label, 'C07.suite_pairs.positive_sound', 'suite_cross_label_positive_pair')
   ctx.extra['label_vectors_from_TLC'] = len(ys)
   # the outside-quantifier counters come from TLC (clause_exercised: C07.*.outside_quantifier)
   t = pairs[1][1]
